@@ -65,7 +65,7 @@ pub fn vector_set(vm: &mut Vm) -> Result<VCell, Error> {
     let value = vm.stack.pop()?.clone();
     let idx = pop_index(vm, "vector-set!")?;
     let vector = pop_vector(vm)?;
-    if idx > vector.len() - 1 {
+    if idx >= vector.len() {
         return Err(InvalidVectorIndex(idx, vector.len()));
     }
     vector.put(idx, value);
@@ -129,7 +129,7 @@ pub fn vector_copy(vm: &mut Vm) -> Result<VCell, Error> {
     let vector = vector.as_ref();
 
     match (start, end) {
-        (Some(start), _) if start > vector.len() - 1 => {
+        (Some(start), _) if start > vector.len() => {
             return Err(InvalidVectorIndex(start, vector.len()));
         }
         (_, Some(end)) if end > vector.len() => {
@@ -166,12 +166,12 @@ pub fn vector_mut_copy(vm: &mut Vm) -> Result<VCell, Error> {
     let to_vector = pop_vector(vm)?;
     let to_vector = to_vector.as_ref();
 
-    if at > to_vector.len() - 1 {
+    if at > to_vector.len() {
         return Err(InvalidVectorIndex(at, to_vector.len()));
     }
 
     match (start, end) {
-        (Some(start), _) if start > from_vector.len() - 1 => {
+        (Some(start), _) if start > from_vector.len() => {
             return Err(InvalidVectorIndex(start, from_vector.len()));
         }
         (_, Some(end)) if end > from_vector.len() => {
